@@ -49,7 +49,7 @@ def gen_txn(rng: random.Random, tier: str) -> dict:
         cfg = gen_btree_cfg(rng)
         scale = cfg["page_read_latency"]
     keys = gen_keys(rng, 2, 4)
-    initial = {k: f"init_{k}" for k in keys if rng.random() < 0.6}
+    initial = {k: (f"init_{k}" if rng.random() < 0.9 else rng.choice([0, "", False])) for k in keys if rng.random() < 0.6}
     iso_mode = rng.choice(["ser", "si", "mixed", "mixed"])
     # lockstep: clients start together and think for 0-8 microseconds only, so that begins, reads and commits of
     # different transactions fall within the manager's own 1-10 microsecond begin / write / commit latencies
@@ -69,6 +69,8 @@ def gen_txn(rng: random.Random, tier: str) -> dict:
             ops = []
             for _ in range(rng.randint(1, 4)):
                 ops.append([think(), rng.choice(["r", "r", "w"]), rng.choice(tkeys)])
+                if ops[-1][1] == "w" and rng.random() < 0.1:
+                    ops[-1].append(rng.choice([0, 0.0, "", False]))  # falsy values are values
             iso = iso_mode if iso_mode != "mixed" else rng.choices(["ser", "si", "rc"], [0.45, 0.4, 0.15])[0]
             txns.append(
                 {
@@ -149,7 +151,7 @@ class TxnClient(Entity):
             }
             self.log.append(rec)
             tx = yield from self.tm.begin(ISO[t["iso"]])
-            for oi, (think, kind, key) in enumerate(t["ops"]):
+            for oi, (think, kind, key, *explicit) in enumerate(t["ops"]):
                 if think > 0:
                     yield think
                 if kind == "r":
@@ -157,7 +159,7 @@ class TxnClient(Entity):
                     v = yield from tx.read(key)
                     rec["ops"].append(["r", key, v, s0, next(self.ctr), t0, self.now.nanoseconds])
                 else:
-                    val = f"t{self.idx}_{ti}_{oi}"
+                    val = explicit[0] if explicit else f"t{self.idx}_{ti}_{oi}"
                     yield from tx.write(key, val)
                     rec["ops"].append(["w", key, val])
             if t["end_think"] > 0:
